@@ -1,8 +1,8 @@
 (** C13: a concrete source, a sequence of edits of it that satisfy the hypotheses of the theorems,
     and two insertions of blank space that do not (inside :: and inside a string literal), which do
     change the result. *)
-From RS Require Import Base.Bytes Base.Outcome Base.Utf8 Lex.Tokens Lex.LexSpec Interp.Run Interp.Cli.
-From RS.Proofs.C13 Require Import LexCuts LexEdit CliErase EndToEnd.
+From RS Require Import Base.Bytes Base.Outcome Base.Utf8 Lex.Tokens Lex.LexSpec Interp.Run Interp.Cli Interp.Batch.
+From RS.Proofs.C13 Require Import LexCuts LexEdit CliErase EndToEnd BatchProofs.
 From Coq Require Import Relations.
 Open Scope list_scope.
 
@@ -60,6 +60,27 @@ Qed.
 Definition ok_with (n : nat) (r : run_result) : Prop :=
   match r with RunOk pcap ws _ => length pcap = n /\ ws = [] | _ => False end.
 
+(* a batch: two inputs that ask for the same output path, one without a file name, one that fails *)
+Definition in_a := {| in_path := "a/x.rsyn"%string; in_out := Some "out/x.pcap"%string; in_src := join_lf lines1 |}.
+Definition in_b := {| in_path := "b/x.rsyn"%string; in_out := Some "out/x.pcap"%string; in_src := join_lf [L1] |}.
+Definition in_c := {| in_path := ".."%string; in_out := None; in_src := [] |}.
+Definition in_d := {| in_path := "d.rsyn"%string; in_out := Some "out/d.pcap"%string; in_src := tx "$" |}.
+
+Definition batch_witness : Prop :=
+  let st := run_batch false [] [("out/d.pcap"%string, Whole [1])] [in_a; in_b; in_c; in_d] in
+  map rp_verdict (b_reports st)
+  = [Compiled (run_src [] (join_lf lines1)); RefusedOutputUsed "out/x.pcap"%string; RefusedNoName; Compiled (run_src [] (tx "$"))]
+  /\ b_status st = ExitFailure
+  /\ (exists pcap, fs_lookup "out/x.pcap"%string (b_fs st) = Some (Whole pcap) /\ length pcap = 86%nat)
+  /\ fs_lookup "out/d.pcap"%string (b_fs st) = None
+  /\ b_status (run_batch false [] [] [in_a]) = ExitSuccess.
+
+Lemma batch_witness_holds : batch_witness.
+Proof.
+  unfold batch_witness. vm_compute. split; [reflexivity|]. split; [reflexivity|].
+  split; [eexists; split; reflexivity|]. split; reflexivity.
+Qed.
+
 Theorem witness :
   edited lines1 lines2
   /\ split_lines (join_lf lines1) = lines1 /\ split_lines (join_crlf lines2) = lines2
@@ -70,7 +91,8 @@ Theorem witness :
   /\ (exists l part, run_src [] (join_lf [L1; L2bad; L3]) = RunErr EParse l part)
   (* blank space inside a string literal is not at a lexeme boundary, and is payload *)
   /\ boundaryb (tx "f.client_dgram(""a") (tx "b"" ""cd"");") = false
-  /\ ok_with 87 (run_src [] (join_lf [L1; L2; L3bad])).
+  /\ ok_with 87 (run_src [] (join_lf [L1; L2; L3bad]))
+  /\ batch_witness.
 Proof.
   split.
   { eapply rst_trans; [apply rst_step, step1|]. eapply rst_trans; [apply rst_step, step2|].
@@ -78,5 +100,5 @@ Proof.
   split; [vm_compute; reflexivity|]. split; [vm_compute; reflexivity|].
   split; [vm_compute; split; reflexivity|]. split; [vm_compute; reflexivity|].
   split; [vm_compute; reflexivity|]. split; [eexists; eexists; vm_compute; reflexivity|].
-  split; [vm_compute; reflexivity|]. vm_compute; split; reflexivity.
+  split; [vm_compute; reflexivity|]. split; [vm_compute; split; reflexivity|exact batch_witness_holds].
 Qed.
